@@ -198,6 +198,12 @@ func quoteOf(raw []byte, f FormSpec) []byte {
 	if f.QTOS != 0 && !v6 {
 		q[1] = byte(f.QTOS)
 	}
+	if f.QTOS != 0 && v6 {
+		// the quoted traffic class was re-marked on the way (DSCP): upper nibble in byte 0, lower in byte 1
+		tc := byte(f.QTOS)
+		q[0] = 0x60 | tc>>4
+		q[1] = tc<<4 | q[1]&0x0f
+	}
 	if f.NAT {
 		if v6 {
 			copy(q[8:24], []byte{0x20, 0x01, 0x0d, 0xb8, 0x0a, 0x0a, 0, 0, 0, 0, 0, 0, 0, 0, 0, 0x77})
